@@ -75,8 +75,20 @@ def check_lock_discipline(run, fx, cg):
                                      "impl Send/Sync exists; FsTzdbProvider is Send and not Sync (type checker's verdict)")
     run.rule("R10.L6-poison-recovery", "a panic while the guard is live must not disable later calls: the Err(PoisonError) "
                                        "result of every lock() is recovered with into_inner, not turned into an error")
-    if len(sites) < 40:
-        run.anchor_missing("R10.L1-lock-only", "lock-sites", "only %d functions use TZ_PROVIDER (expected >= 40)" % len(sites))
+    # functions that take the lock through a helper introduced after the baseline (`fn tz_provider() -> MutexGuard`) still count
+    # as users of the static: the floor guards against a rule that no longer finds its sites, not against a refactoring
+    from .. import baseline
+    helpers = {f.path for f, _, _ in sites if baseline.is_new(f.path)}
+    via_helper = 0
+    if helpers:
+        for c in ("temporal_rs",):
+            for g in fx[c].fns:
+                if g.mir is not None and g.path not in helpers and any(cl.path in helpers for cl in M.Body(g).calls()):
+                    via_helper += 1
+    run.analysed["lock_sites_via_new_helpers"] = via_helper
+    if len(sites) + via_helper < 40:
+        run.anchor_missing("R10.L1-lock-only", "lock-sites", "only %d functions use TZ_PROVIDER (expected >= 40)" %
+                           (len(sites) + via_helper))
     st = rs.consts.get("temporal_rs::" + STATIC)
     if st is None:
         run.anchor_missing("R10.L4-no-other-sync", "static", "static TZ_PROVIDER not found")
